@@ -122,6 +122,21 @@ def main():
         elif stage == "sending":
             items = [(i, d, "big" if i < victims else "ok", how, "B") for i in range(n)]
             threading.Thread(target=killer, args=("sending", victims), daemon=True).start()
+        elif stage == "idle_flag_window":
+            # an idle worker dies; the executor's manager thread is pre-empted (up to 2.5 s) at the point where it is about to flag
+            # the executor as broken, and the next call submits its tasks inside that window
+            from joblib.externals.loky import process_executor as pe
+            orig_flag = pe._ExecutorFlags.flag_as_broken
+
+            def slow_flag(self, broken, _o=orig_flag):
+                time.sleep(2.5)
+                return _o(self, broken)
+            pe._ExecutorFlags.flag_as_broken = slow_flag
+            for pid in (a.get("pids") or [])[:victims]:
+                try: os.kill(pid, sig_of(how) or signal.SIGKILL); killed.append(pid)
+                except OSError: pass
+            time.sleep(0.5)
+            items = [(i, d, "ok", how, "B") for i in range(n)]
         elif stage == "idle":
             pids = (a.get("pids") or [])[:victims]
             for pid in pids:
